@@ -22,6 +22,9 @@ type AccessorGetter interface {
 	HasByHeight(ctx context.Context, height uint64) (bool, error)
 }
 
+// ErrReadOnly is returned by Blockstore on attempts to store Blocks in it.
+var ErrReadOnly = errors.New("shwap/bitswap: blockstore over EDS accessors is read-only")
+
 // Blockstore implements generalized Bitswap compatible storage over Shwap containers
 // that operates with Block and accesses data through AccessorGetter.
 type Blockstore struct {
@@ -84,12 +87,14 @@ func (b *Blockstore) Has(ctx context.Context, cid cid.Cid) (bool, error) {
 	return has, nil
 }
 
+// Put always fails with ErrReadOnly: Blocks are only ever derived from the EDS Accessors.
 func (b *Blockstore) Put(context.Context, blocks.Block) error {
-	panic("not implemented")
+	return ErrReadOnly
 }
 
+// PutMany always fails with ErrReadOnly: Blocks are only ever derived from the EDS Accessors.
 func (b *Blockstore) PutMany(context.Context, []blocks.Block) error {
-	panic("not implemented")
+	return ErrReadOnly
 }
 
 func (b *Blockstore) DeleteBlock(context.Context, cid.Cid) error {
